@@ -233,6 +233,7 @@ static void process_get_all_attr(struct xcm_socket *socket,
 
     struct ctl_proto_get_all_attr_cfm *cfm = &response->get_all_attr_cfm;
 
+    response->type = ctl_proto_type_get_all_attr_cfm;
     cfm->attrs_len = 0;
 
     xcm_attr_get_all(socket, add_attr, cfm);
